@@ -14,7 +14,7 @@ import (
 
 func init() {
 	register("R-ARITY", "operand layout, three ways: for every opcode the number of operands written at every emission site of the compiler (checked per site by R-STACK's walker), the number consumed by the VM handler (static ip advance = operands read), and the number consumed by the disassembler clause (d.fetch() calls) are equal, including CallUser's variadic tail; every opcode constant has a VM handler and is either emitted somewhere or tabled as a sentinel; opcodes with operands have a disassembler clause", ruleArity)
-	register("R-CMP", "comparison semantics: each of the six comparison handlers and six fused compare-and-jump handlers applies, in its string branch and in its numeric branch, the Go operator whose text is the AWK token that the compiler maps to that opcode, to (left,right) in pop order, selecting the string branch by `either operand is a true string`; the fused (normal, inverted) jump pair chosen by compiler.condition for each source comparison computes complementary predicates over the outcome domain {lt,eq,gt} for strings and {lt,eq,gt,unordered} for numbers", ruleCmp)
+	register("R-CMP", "comparison semantics, decided by evaluating the SSA form over a finite domain: each of the six comparison handlers and six fused compare-and-jump handlers of the VM, entered at its dispatch block and evaluated for all 48 combinations of (left is a true string, right is a true string, string order lt/eq/gt, numeric order lt/eq/gt/unordered), yields exactly the AWK operator that the compiler maps to that opcode, applied to (left,right) in pop order, as strings iff either operand is a true string (helpers entered, negations folded); compiler.condition, evaluated for each comparison token and both polarities, returns only JumpTrue/JumpFalse of the right polarity or a fused jump whose table equals the comparison (inverted: its negation) on all 48 scenarios, unordered included", ruleCmp)
 	register("R-ARITH", "operator tables: token -> opcode (compiler.binaryOp), token -> augmented-assignment code (statement shortcut), opcode -> Go operator / math.Pow / math.Mod in the VM clause and in augAssignOp, all compose to the operator the AWK token text names, with operands in (left, right) order, and division/modulo are preceded by the zero test returning an error; incrAmount maps ++ to +1 and -- to -1, and the expression form of ++/-- uses Add/Subtract accordingly", ruleArith)
 }
 
